@@ -147,6 +147,24 @@ Definition write_trailers (t : gomap) : option (list field) :=
   then Some (flat_map trailer_entry_fields t)
   else None.
 
+(** ** Receive-side glue for trailers: decodeTrailers (headers.go), fed by a HEADERS frame whose
+    payload is the QPACK encoding of [fs] ([enclen] bytes, an oracle: the encoder is outside
+    /repo).  Gate on the frame length, read the payload ([truncated]: the stream ends early),
+    decode — an EMPTY payload has no field-section prefix, the decoder fails at once — and
+    parseTrailers with the same limit.  Result: error class (1 too large, 2 QPACK, 3 other) or map. *)
+Definition decode_trailers (maxb enclen : Z) (truncated : bool) (fs : list field) : Z + hmap :=
+  if maxb <? enclen then inl 3
+  else if truncated then inl 3
+  else match fs with
+       | [] => inl 2
+       | _ => match parseTrailers maxb fs false with
+              | inl ETooLarge => inl 1
+              | inl EQpack => inl 2
+              | inl (EMalformed _) => inl 3
+              | inr m => inr m
+              end
+       end.
+
 (** ** The response writer *)
 
 (** strings.TrimSpace on ASCII input *)
